@@ -11,6 +11,21 @@ namespace Runner
 
 /-! ## programs -/
 
+/-- a compare with run-time length 0 holds whatever the buffers contain -/
+def CheckKind.zeroLength : CheckKind → Bool
+  | .memcmp0 => true
+  | .cMemcmp0 => true
+  | _ => false
+
+/-- does `checkKind k pass|fail` fail?  only when violating operands were chosen and the kind
+    compares anything at all -/
+def CheckKind.failsWhen (k : CheckKind) (pass : Bool) : Bool := !pass && !k.zeroLength
+
+/-- the documented counting rule: every executed check counts one, except `CHECK_COMPARE`, which
+    calls an assert function (and so counts) only when the comparison does not hold -/
+def CheckKind.countsWhen (k : CheckKind) (pass : Bool) : Nat :=
+  if k = .compare ∧ pass = true then 0 else 1
+
 /-- the statement ends its phase (a failing check, TEST_EXIT, or — where the build has
     exceptions — a throw) -/
 def Stmt.terminates (exc : Bool) : Stmt → Bool
@@ -22,6 +37,7 @@ def Stmt.terminates (exc : Bool) : Stmt → Bool
   | .throwOther => exc
   | .mark _ => false
   | .checkPass => false
+  | .check k pass _ _ => k.failsWhen pass
 
 /-- the statements of a phase that execute: everything up to and including the first one that
     terminates -/
@@ -38,14 +54,27 @@ def Stmt.markNo : Stmt → Option Nat
 
 def marksOf (p : List Stmt) : List Nat := p.filterMap Stmt.markNo
 
-/-- a check is counted by checkPass and by both kinds of failing check -/
-def Stmt.isCheck : Stmt → Bool
-  | .checkPass => true
-  | .failCpp _ _ => true
-  | .failC _ _ => true
-  | _ => false
+/-- how many checks the statement counts (documented rule) -/
+def Stmt.checkCount : Stmt → Nat
+  | .checkPass => 1
+  | .failCpp _ _ => 1
+  | .failC _ _ => 1
+  | .check k pass _ _ => k.countsWhen pass
+  | _ => 0
 
-def checksOf (p : List Stmt) : Nat := (p.filter Stmt.isCheck).length
+def checksOf (p : List Stmt) : Nat := (p.map Stmt.checkCount).sum
+
+/-- what property C03's model of the check macros (`Model/Asserts.lean`) says the statement does:
+    the outcome of the macro on its operands (`none`: the statement is not a check) -/
+def Stmt.c03Outcome : Stmt → Option Asserts.Outcome
+  | .checkPass => some (Asserts.CHECK true)
+  | .failCpp _ _ => some Asserts.FAIL
+  | .failC _ _ => some Asserts.FAIL_C
+  | .check k pass _ _ => some (k.outcome pass)
+  | _ => none
+
+/-- how often the statement calls `countCheck()` according to C03's model -/
+def Stmt.c03Counted (s : Stmt) : Nat := (s.c03Outcome.map (·.counted)).getD 0
 
 /-- the failure a statement must record: a failing check at its own file:line, an escaping
     exception at the test's file:line (the only location known for it) -/
@@ -54,6 +83,7 @@ def Stmt.failure (cfg : Cfg) (t : Test) : Stmt → Option FailRec
   | .failC loc msg => some (mkRec cfg t loc msg)
   | .throwStd => if cfg.exceptions then some (mkRecAtTest cfg t cfg.stdExcMsg) else none
   | .throwOther => if cfg.exceptions then some (mkRecAtTest cfg t cfg.otherExcMsg) else none
+  | .check k pass loc msg => if k.failsWhen pass then some (mkRec cfg t loc msg) else none
   | _ => none
 
 def phaseFailures (cfg : Cfg) (t : Test) (p : List Stmt) : List FailRec :=
@@ -69,6 +99,10 @@ def testMarks (cfg : Cfg) (t : Test) : List (Phase × Nat) :=
 
 def testChecks (cfg : Cfg) (t : Test) : Nat :=
   ((phasesRun cfg t).map (fun ph => checksOf (executed cfg.exceptions (stmtsOf t ph)))).sum
+
+/-- checks of a test as the sum of C03's per-statement counts over the statements that execute -/
+def c03ChecksOfTest (cfg : Cfg) (t : Test) : Nat :=
+  ((phasesRun cfg t).map (fun ph => ((executed cfg.exceptions (stmtsOf t ph)).map Stmt.c03Counted).sum)).sum
 
 /-- failures of the three phases, in order -/
 def testPhaseFailures (cfg : Cfg) (t : Test) : List FailRec :=
